@@ -58,6 +58,12 @@ add("C11", "exploration",
     "deterministic simulation: seeded operation histories against a pristine-copy reference model (history independence / purity)",
     "DESIGN.md section 5 C11")
 
+add("C04", "exploration",
+    "Seeded scenes with coordinate-carrying frames pushed through chains of functional-API geometry steps and through the four Dataset classes with augmentation ON (random draws behind the seed, moved by RNG-jump operations); the output image is decoded at every output keypoint and must return the original keypoint within a tolerance derived from the statement; exact output sizes, bottom/right-only padding, intensity-only identity.",
+    "Tolerance = statement's one output pixel + derived size-rounding and half-pixel-convention slack (looser than the statement, never stricter); only keypoints whose neighbourhood is image content are decoded; in-memory datasets.",
+    "deterministic simulation of the augmentation RNG: seeded draws + content-decoding oracle on coordinate-carrying frames",
+    "DESIGN.md section 5 C04")
+
 PENDING = ["C02","C03","C04","C09","C10","C11","C12","C14","C18","C19"]
 
 def main():
